@@ -73,7 +73,7 @@ def _run_f(case):
         objcmp.compare(fails, tag, ra, rb, kap, pts=x)
         ok, la, lb_ = objcmp.both(fails, tag + ".log_integral", lambda: ra.log_integral(), lambda: rb.log_integral())
         if ok:
-            objcmp.compare(fails, tag + ".log_integral", la, lb_, kap)
+            objcmp.compare(fails, tag + ".log_integral", la, lb_, kap, floor=1.0)
             # after the query both sides carry full covariance information
             objcmp.compare(fails, tag + ".after_query", ra, rb, kap)
     ok, ra, rb = objcmp.both(fails, f"{fk}.log_factor", lambda: ma.integrate("log u(x)", factor=f), lambda: mb.integrate("log u(x)", factor=g))
@@ -216,7 +216,7 @@ def _run_d(case):
         if op in ("multiply", "hadamard", "product", "slice"):
             ok, la, lb_ = objcmp.both(fails, tag + ".log_integral", lambda: ra.log_integral(), lambda: rb.log_integral())
             if ok:
-                objcmp.compare(fails, tag + ".log_integral", la, lb_, kap)
+                objcmp.compare(fails, tag + ".log_integral", la, lb_, kap, floor=1.0)
     return fails
 
 
